@@ -47,7 +47,8 @@ func (s Stack) Apply(opt *Option, profile string) (string, error) {
 	if names[0] != "X" {
 		regClean = slices.Insert(regClean, 0,
 			util.ToRegexRepl([]string{
-				`(?m)^.*(|P|p)(|U|u)(|i)x,.*$`, ``, // Remove X transition rules
+				// Remove the file rules with an exec transition, and only them
+				`(?m)^[\t ]*(?:(?:audit|deny|allow|owner)[\t ]+)*(?:"[^"\n]*"|[/@]\S*)[\t ]+[mrwlkPpCcUui]*x(?:[\t ]+->[\t ]+\S+)?,.*$`, ``,
 			})...,
 		)
 	} else {
